@@ -61,7 +61,10 @@ Valid(c) ==
     /\ c.dim = 3 => c.thick = One
     /\ (c.form = "const") => c.dens = <<"one", "zero">>
     /\ (c.form = "array") => c.dens[1] \in {"one", "lin"}          \* a nodal array is interpolated: exact for fields in the element space
-    /\ (c.kind \in {"pressure", "point"}) => (c.dens = <<"one", "zero">> /\ c.form = "const")
+    /\ (c.kind = "pressure") => (c.dens = <<"one", "zero">> /\ c.form = "const")
+    (* concentrated load: the total is given as a constant, or as nodal arrays (one array object shared by two unknowns and *)
+    (* entered twice with a Bc_Init() in between, as a load-stepping loop does) - the total per unknown is the same        *)
+    /\ (c.kind = "point") => (c.dens = <<"one", "zero">> /\ c.form \in {"const", "array"})
     /\ (c.stray) => c.kind \in {"lineLoad", "surfLoad"}
     (* a selection may list a node twice (two node sets sharing a corner concatenated): the loaded region is the same *)
     /\ (c.dup) => (c.form # "array" /\ ~c.stray /\ c.kind # "point")
@@ -73,7 +76,7 @@ Expect(c) ==
     IN  IF c.kind = "pressure"
         THEN [cfg |-> c, resultant |-> [d \in 1..c.dim |-> Mul3(t, Measure(reg), RI(Normals[c.region][d]))], moments |-> <<>>, measure |-> Measure(reg)]
         ELSE IF c.kind = "point"
-        THEN [cfg |-> c, resultant |-> [d \in 1..c.dim |-> IF d = 1 THEN RI(5) ELSE RI(-2)], moments |-> <<>>, measure |-> Measure(reg)]
+        THEN [cfg |-> c, resultant |-> [d \in 1..c.dim |-> IF d = 1 \/ (d = 2 /\ c.form = "array") THEN RI(5) ELSE RI(-2)], moments |-> <<>>, measure |-> Measure(reg)]
         ELSE [cfg |-> c, resultant |-> Resultant(reg, dens, t), moments |-> Moments(reg, dens, t), measure |-> Measure(reg)]
 
 Init == cs \in {c \in Cases : Valid(c)}
